@@ -194,9 +194,9 @@ pub fn run(ctx: &Ctx) {
         |i, msg| ctx.violation("harness-panic", format!("exec-boundary case {i}: {msg}")),
     );
 
-    // an interactive shell survives a failed exec with its handlers in place
+    // an interactive shell survives a failed exec with its handlers in place (with and without job control)
     for (k, sig) in ["TERM", "QUIT", "INT"].iter().enumerate() {
-        for pre in ["", "/bin/true\n", "trap '/bin/echo t' USR1\n"] {
+        for pre in ["", "/bin/true\n", "trap '/bin/echo t' USR1\n", "set +m\n", "set +m\n/bin/true\n", "set -m\n"] {
             let script = format!("{pre}exec /nonexistent/cmd\nkill -s {sig} $$\n/bin/echo @survived\n");
             let mut cmd = std::process::Command::new(stock);
             cmd.arg("-i").env_clear().env("PATH", "/bin:/usr/bin").env("LANG", "C");
@@ -216,6 +216,56 @@ pub fn run(ctx: &Ctx) {
                 );
             } else {
                 ctx.nontrivial_str(&format!("failedexec|{k}|{pre}"));
+            }
+        }
+    }
+
+    // The stop signals TSTP/TTIN/TTOU are ignored by an interactive shell exactly while job control
+    // (monitor) is on - whatever else the same `set` command changes, and in whatever order the
+    // options are spelled. The kernel is the monitor: SigIgn of the shell itself (/proc/$$/status).
+    // Lines of one group must leave the same ignored set; the first line of each group is the plain
+    // spelling, whose stop-signal bits are pinned (all three set / all three clear).
+    let stop_bits = bit(20) | bit(21) | bit(22);
+    let groups: [(&str, bool, &[&str]); 4] = [
+        ("-i", true, &["set -m", "set -mC", "set -Cm", "set -m -C", "set -C -m", "set -o monitor -C", "set -m +C", "set -mu", "set -m -o noclobber", "set -m --"]),
+        ("-i", false, &["set +m", "set +m -C", "set -C +m", "set +mC", "set +o monitor -C", "set +m +C", "set +m -u", "set +m --"]),
+        ("-i +m", true, &["set -m", "set -mC", "set -Cm", "set -m -C", "set -C -m", "set -m -u"]),
+        ("-i +m", false, &["set +m", "set +m -C", "set -C +m", "set -C"]),
+    ];
+    for (args, monitor_on, lines) in groups {
+        let mut reference: Option<u64> = None;
+        for (k, line) in lines.iter().enumerate() {
+            let script = format!("{line}\n/bin/echo @shell\n/bin/grep Sig /proc/$$/status\n");
+            let mut cmd = std::process::Command::new(stock);
+            cmd.args(args.split(' ')).env_clear().env("PATH", "/bin:/usr/bin").env("LANG", "C");
+            crate::util::start_with_default_signals(&mut cmd);
+            let Ok(out) = crate::util::run_child(cmd, Some(script.clone().into_bytes()), 60) else {
+                ctx.inconclusive.fetch_add(1, std::sync::atomic::Ordering::Relaxed);
+                continue;
+            };
+            ctx.eval();
+            ctx.count("stop_signal_runs", 1);
+            let text = String::from_utf8_lossy(&out.stdout).into_owned();
+            let ign = text.lines().find_map(|l| l.strip_prefix("SigIgn:")).and_then(|v| u64::from_str_radix(v.trim(), 16).ok());
+            let ctxt = || format!("stock shell ({args}), script on standard input:\n{script}stdout:\n{text}\nstderr:\n{}", String::from_utf8_lossy(&out.stderr));
+            let Some(ign) = ign else {
+                ctx.violation("stop-signals:no-observation", ctxt());
+                continue;
+            };
+            // /proc masks: bit n-1 stands for signal n
+            let stops = ign & (stop_bits >> 0);
+            let want = if monitor_on { stop_bits } else { 0 };
+            if stops != want {
+                ctx.violation(
+                    format!("stop-signals:{}:{}", if monitor_on { "not-ignored-with-job-control" } else { "ignored-without-job-control" }, if k == 0 { "plain" } else { "combined-set" }),
+                    format!("after `{line}` job control is {} but the shell's SigIgn is {ign:016x} (TSTP/TTIN/TTOU bits {stops:x}, expected {want:x})\n{}", if monitor_on { "on" } else { "off" }, ctxt()),
+                );
+                continue;
+            }
+            match reference {
+                None => reference = Some(ign),
+                Some(r) if r != ign => ctx.violation("stop-signals:spelling-differs", format!("`{}` leaves SigIgn {r:016x}, `{line}` leaves {ign:016x}\n{}", lines[0], ctxt())),
+                _ => ctx.nontrivial_str(&format!("stops|{args}|{line}")),
             }
         }
     }
